@@ -7,7 +7,7 @@ from props import poolcommon as pc
 from vlib.core import cz, clist, cbool
 
 MANIFEST = dict(
-    text='Theorems (Coq, all op sequences, unbounded): the LaxBoundedSemaphore methods translated from pool.py on every run equal the model; 0 <= value <= size + shrinks-in-progress for every sequence of acquire/release/grow/shrink/clear; acquire enabled iff value > 0; release is lax. Correspondence on random op sequences against the real class. Pool level: the bound is the configured size in every reachable state; a pass gives back one slot per reaped worker; an apply task that cannot be sent gives its slot back (repaired defect D26). Closed crash-free composition: free slots + jobs in flight = bound in every reachable state, all slots back at the end. Refuted with a witness (known finding): the first result of a map job frees a slot no map job took.',
+    text='Theorems (Coq, all op sequences, unbounded): the LaxBoundedSemaphore methods translated from pool.py on every run equal the model; 0 <= value <= size + shrinks-in-progress for every sequence of acquire/release/grow/shrink/clear; acquire enabled iff value > 0; release is lax. Correspondence on random op sequences against the real class. Pool level: the bound is the configured size in every reachable state; a pass gives back one slot per reaped worker; an apply task that cannot be sent gives its slot back (repaired defect D26). Closed crash-free composition: free slots + jobs in flight = bound in every reachable state, all slots back at the end. Refuted with a witness (known finding): the first result of a map job frees a slot no map job took. Closed system with crashes (Model/PoolCrash.v): free slots + slot holders = bound in every reachable state, all slots back at every complete end (C10_crash_slots_account).',
     note='Trusted: Coq kernel, translate/pykernel.py, Lib/PyVal.v (Python int/None semantics), stdlib threading.Semaphore modelled (blocking acquire = Blocked), `with cond:` sections atomic. Pool-level slot conservation is partial (see DESIGN.md 5.10).',
     technique='Coq proof over translator-regenerated kernel + differential correspondence',
     ref='5.10',
@@ -88,7 +88,7 @@ def correspond_sem(res, n):
 
 
 def run(res):
-    res.proof_step('Props/C10.v', extra_targets=['Model/LaxSem.vo', 'Model/Pool.vo'], kernels_needed=['K_laxsem', 'G_laxsem_atomic', 'G_pool_shape', 'G_pool_pins'])
+    res.proof_step('Props/C10.v', extra_targets=['Model/LaxSem.vo', 'Model/Pool.vo', 'Model/PoolCrash.vo'], kernels_needed=['K_laxsem', 'G_laxsem_atomic', 'G_pool_shape', 'G_pool_pins'])
     n = 400 if res.tier == 'quick' else 20000
     if res.broken:
         n = max(n, 5000)
@@ -98,6 +98,8 @@ def run(res):
                   cfg=lambda rng: dict(pc.random_cfg(rng), putlocks=True))
     # closed crash-free composition: conservation (free slots + jobs in flight = bound) is proved of it
     pc.closed_check(res, 'C10', 120 if res.tier == 'quick' else 2000)
+    # the closed system with crashes (Model/PoolCrash.v), schedules without the racy pass of the recorded C04 finding
+    pc.crash_closed_check(res, 'C10', 40 if res.tier == 'quick' else 800, allow_early=False)
     pc.real_scenarios(res, 'C10', [dict(kind='closed_system', n=2, jobs=12), dict(kind='closed_system', n=3, jobs=7, putlocks=True)] if res.tier == 'quick' else [dict(kind='closed_system', n=n, jobs=j, putlocks=pl) for n in (1, 2, 4) for j in (0, 1, 9, 40) for pl in (True, False)])
     res.assumptions += [
         'threading.Semaphore / Condition (stdlib) are modelled: a blocking acquire with value 0 is "Blocked"',
